@@ -90,6 +90,7 @@ type BatchOutcome struct {
 	Txs      int
 	HasConv  bool
 	PegReq   bool
+	Addr     factom.FAAddress // input address of the batch
 }
 
 // RatesAt returns recorded rates of a height (ticker → value); nil when the height has none.
